@@ -28,6 +28,7 @@ from common import coqrun, enc
 
 ID = "C10"
 PROP_FILE = "props/C10.v"
+MODEL_TARGETS = ["theories/Power.vo"]      # the tie needs only the model, also when a proof breaks
 THEOREMS = ["C10_pipeline", "C10_values", "C10_bounds", "C10_time_order", "C10_energy", "C10_energy_wrap",
             "C10_equal_readings_zero"]
 ALLOWED_AXIOMS = []
@@ -65,6 +66,7 @@ ASSUMPTIONS = [
     "charge readings are integers in [0, 2^32); a reading of exactly 0 is 'no reading' (the code skips it)",
     "device slices reach extract_power_event as X (or b) events carrying args.Power, args.ts_all and dur",
     "events of one rank share a pid; helper counters carry no tid",
+    "incoming events are not themselves counters named 'Power' or events carrying TS_cycles (the tool's input has none)",
 ]
 
 W32 = 2 ** 32
@@ -284,8 +286,8 @@ def oracle_pipeline(case, out):
     fails = []
     ids_in = [s["id"] for s in case["slices"]]
     ids_out = [o[1] for o in out if o[0] == 0]
-    if ids_in != ids_out:
-        fails.append({"kind": "slices_not_passed_through_once_in_order"})
+    if sorted(ids_in) != sorted(ids_out):      # (their relative order is not part of C10; the tie compares it)
+        fails.append({"kind": "incoming_event_lost_or_duplicated"})
     if any(o[0] == 1 for o in out):
         fails.append({"kind": "helper_counter_leaked"})
     if any(o[0] == 2 and (o[4] != "Power" or o[5] != "Power4") for o in out):
@@ -519,7 +521,7 @@ def exhaustive_compute_cases(ctx):
     times = [0.0, 8.0, 16.0]
     charges = [0, 105, W32 - 105]
     alpha = [(t, q, c) for t in times for q in charges for c in CATS]
-    L = ctx.pick(3, 3)
+    L = ctx.pick(3, 4)
     cases = []
     for ln in range(0, L + 1):
         for seq in itertools.product(alpha, repeat=ln):
@@ -797,7 +799,7 @@ def run(ctx):
         "evaluations": len(cases) + len(off) + n_e2e, "distinct_nontrivial": nontriv,
         "rule": "distinct cases in which at least one rank has >= 2 valid samples (non-zero readings at distinct "
                 "times among the sampled slices / helper counters), counted over: corpus + all compute_power "
-                f"sequences of <= 3 helper counters over a 18-letter alphabet ({n_exh}) + random slice streams through "
+                f"sequences of <= {ctx.pick(3, 4)} helper counters over a 18-letter alphabet ({n_exh}) + random slice streams through "
                 "the registered mini-pipeline (1-3 ranks, 0-8 valid samples each plus zero/duplicate/short/Prep/"
                 "incomplete neighbours, perturbed stream order) + random compute_power sequences + off-grid slice "
                 "streams (oracle only); end-to-end runs are counted in evaluations only",
